@@ -80,21 +80,27 @@ def validate(prop, traces, rep, ev, spec="TraceWriteSession", cfg="TraceWriteSes
     if not bad:
         return
     d = scratch("bad")
-    sub = [traces[i] for i in bad[:60]]
-    suborig = [origins[i] if origins else None for i in bad[:60]]
-    p = os.path.join(d, "bad.json")
-    tlc.write_json(p, sub)
-    rr = tlc.run(spec, cfg, workers=1, env={"TRACE_FILE": p, "EXPLAIN": "1"})
-    reach = {}
-    for v in rr.prints.get("AT", []):
-        reach[int(v[0])] = max(reach.get(int(v[0]), 0), int(v[1]))
-    for j, tr in enumerate(sub):
-        l = reach.get(j + 1, 1)
-        key, e = classify_fn(tr, l)
-        rep.violation(key, f"{spec} rejects event {l} ({e.get('e')}) of a recorded trace: {json.dumps(e)[:300]}",
-                      {"trace": tr, "rejected_at": l, "origin": suborig[j]})
-    if len(bad) > 60:
-        print(f"  ... {len(bad) - 60} more rejected traces not explained")
+    # every rejected trace is explained and classified, 60 at a time (traces that fall under a known finding must not use up the
+    # room of others); after 60 NEW violations the rest is only counted
+    done = 0
+    while done < len(bad) and len(rep.violations) < 60:
+        chunk = bad[done:done + 60]
+        done += len(chunk)
+        sub = [traces[i] for i in chunk]
+        suborig = [origins[i] if origins else None for i in chunk]
+        p = os.path.join(d, "bad.json")
+        tlc.write_json(p, sub)
+        rr = tlc.run(spec, cfg, workers=1, env={"TRACE_FILE": p, "EXPLAIN": "1"})
+        reach = {}
+        for v in rr.prints.get("AT", []):
+            reach[int(v[0])] = max(reach.get(int(v[0]), 0), int(v[1]))
+        for j, tr in enumerate(sub):
+            l = reach.get(j + 1, 1)
+            key, e = classify_fn(tr, l)
+            rep.violation(key, f"{spec} rejects event {l} ({e.get('e')}) of a recorded trace: {json.dumps(e)[:300]}",
+                          {"trace": tr, "rejected_at": l, "origin": suborig[j]})
+    if done < len(bad):
+        print(f"  ... {len(bad) - done} more rejected traces not explained")
     shutil.rmtree(d, ignore_errors=True)
 
 
